@@ -2,6 +2,7 @@ package parser
 
 import (
 	"regexp"
+	"strings"
 
 	"github.com/robertkrimen/otto/ast"
 	"github.com/robertkrimen/otto/file"
@@ -138,6 +139,12 @@ func (p *parser) parseRegExpLiteral() *ast.RegExpLiteral {
 		flags = p.literal
 		endOffset = p.chrOffset
 		p.next()
+		for i, flag := range flags {
+			if !strings.ContainsRune("gim", flag) || strings.ContainsRune(flags[:i], flag) {
+				p.error(idx, "Invalid regular expression flags")
+				break
+			}
+		}
 	}
 
 	var value string
